@@ -198,7 +198,12 @@ def run_task(param, acc):
             if True:
                 r = run_one(script, clean, offset, nwatch, post, reentrant)
                 key = (script, clean, offset, nwatch, post, reentrant)
-                oc = tuple(sorted(set(v[0] for v in r['viol']))) or ('ok',)
+                oc = tuple(sorted(set(v[0] for v in r['viol'])))
+                if not oc:
+                    kinds = [o[0][0] + (':' + o[0][1] if len(o[0]) > 1 and o[0][0] == 'err' else '') for o in r['obs'][1]]
+                    oc = ('answered=%d' % sum(1 for k in kinds if not k.startswith('err:TorDisconnect')),
+                          'disconnect-failed=%d' % sum(1 for k in kinds if k.startswith('err:TorDisconnect')),
+                          'watchers=%d' % len(r['obs'][2]))
                 nontriv = (0 < offset < total) or len(post) > 0 or bool(reentrant)
                 acc.execution(key=key, outcome='/'.join(oc), nontrivial=nontriv, steps=r['steps'])
                 acc.state(h64(r['obs']))
